@@ -22,6 +22,8 @@ from ..astutil import (text, access_path, calls_in, func_params, stmts_of, is_co
                        canon_text, canon, fold, store_targets)
 from ..loader import where, AnalysisError
 from ..paths import Enumerator
+from ..terms import Terms, PathEnv
+from .. import poly
 from . import c04
 
 
@@ -116,48 +118,47 @@ def r2_velocity(ctx, repo):
         ctx.inconclusive("R2", C, where(mod, fn), "bound parameters not recognised: %s" % ps, key="clamp")
         return None
     up, lo = up[0], lo[0]
-    half = None   # name bound to (up - lo) / 2
-    le, ge = {}, {}
-    for s in fn.body:
-        if isinstance(s, ast.Expr) and isinstance(s.value, ast.Constant):
-            continue
-        if isinstance(s, ast.Assign) and len(s.targets) == 1 and isinstance(s.targets[0], ast.Name):
-            t, v = s.targets[0].id, s.value
-            if isinstance(v, ast.BinOp) and isinstance(v.op, ast.Div) and is_const(v.right) and const_value(v.right) == 2 \
-                    and isinstance(v.left, ast.BinOp) and isinstance(v.left.op, ast.Sub) and access_path(v.left.left) == up and access_path(v.left.right) == lo:
-                half = t
-                continue
-            if isinstance(v, ast.BinOp) and isinstance(v.op, ast.Div) and isinstance(v.left, ast.BinOp) and isinstance(v.left.op, ast.Sub):
-                ctx.violated("R2", C, where(mod, s), "the maximum speed is %s, expected (upper - lower) / 2" % text(v), key="clamp")
-                return (vel, up, lo)
-            if isinstance(v, ast.Call) and access_path(v.func) in ("min", "max") and len(v.args) == 2:
-                a, b = v.args
-                src = [x for x in (a, b) if access_path(x) in le or access_path(x) in ge or access_path(x) == vel]
-                oth = [x for x in (a, b) if x not in src]
-                if len(src) == 1 and len(oth) == 1:
-                    sname = access_path(src[0])
-                    old_le, old_ge = set(le.get(sname, ())), set(ge.get(sname, ()))
-                    bt = text(oth[0])
-                    if access_path(v.func) == "min":
-                        new_le = old_le | {bt}
-                        # min(x, b) >= L iff x >= L and b >= L ; b = half >= -half (half >= 0)
-                        new_ge = {L for L in old_ge if (L == "-" + bt or L == bt)}
-                    else:
-                        new_ge = old_ge | {bt}
-                        new_le = {U for U in old_le if (bt == "-" + U or U == bt)}
-                    le[t], ge[t] = new_le, new_ge
-                    continue
-            le.pop(t, None)
-            ge.pop(t, None)
-        elif isinstance(s, ast.Return):
-            r = access_path(s.value)
-            ok = half is not None and half in le.get(r, ()) and ("-" + half) in ge.get(r, ())
-            if ok:
-                ctx.holds("R2", C, where(mod, fn), "returned value proved within [-%s, +%s] with %s = (%s - %s)/2" % (half, half, half, up, lo), key="clamp")
-            else:
-                ctx.violated("R2", C, where(mod, s), "the returned velocity is not proved within +-(upper-lower)/2: upper facts %s, lower facts %s" % (sorted(le.get(r, ())), sorted(ge.get(r, ()))), key="clamp")
-            return (vel, up, lo)
-    ctx.inconclusive("R2", C, where(mod, fn), "no return statement", key="clamp")
+    T = Terms(fn)
+    if len(T.returns) != 1 or T.returns[0][1] is None:
+        ctx.inconclusive("R2", C, where(mod, fn), "single returned value not found", key="clamp")
+        return (vel, up, lo)
+    rt = T.returns[0][1]
+    H = poly.canon_key(poly.parse("(%s - %s) / 2" % (up, lo)))
+    NH = poly.canon_key(poly.parse("-(%s - %s) / 2" % (up, lo)))
+    leaves = []
+
+    def facts(e):
+        """(upper bounds, lower bounds) of a min/max nest, as canonical keys; None outside the fragment"""
+        if isinstance(e, ast.Call) and access_path(e.func) in ("min", "max") and len(e.args) == 2 and not e.keywords:
+            fa, fb = facts(e.args[0]), facts(e.args[1])
+            if fa is None or fb is None:
+                return None
+            if access_path(e.func) == "min":
+                return fa[0] | fb[0], fa[1] & fb[1]
+            return fa[0] & fb[0], fa[1] | fb[1]
+        if access_path(e) == vel:
+            return set(), set()
+        if any(isinstance(n, ast.Name) and n.id == vel for n in ast.walk(e)):
+            return None
+        k = poly.canon_key(e)
+        leaves.append((k, e))
+        le, ge = {k}, {k}
+        if k == H:
+            ge.add(NH)      # (u - l)/2 >= -(u - l)/2 given l <= u
+        if k == NH:
+            le.add(H)
+        return le, ge
+    f = facts(rt)
+    if f is None:
+        ctx.inconclusive("R2", C, where(mod, fn), "returned value %s is not a min/max nest over the velocity" % text(rt)[:120], key="clamp")
+    elif H in f[0] and NH in f[1]:
+        ctx.holds("R2", C, where(mod, fn), "returned value %s proved within +-(%s - %s)/2" % (text(rt), up, lo), key="clamp")
+    else:
+        odd = [text(e) for k, e in leaves if k not in (H, NH)]
+        if odd:
+            ctx.violated("R2", C, where(mod, T.returns[0][0]), "the maximum speed is %s, expected (upper - lower) / 2" % odd[0], key="clamp")
+        else:
+            ctx.violated("R2", C, where(mod, T.returns[0][0]), "the returned velocity %s is not proved within +-(upper-lower)/2" % text(rt), key="clamp")
     return (vel, up, lo)
 
 
@@ -236,21 +237,32 @@ def r3_position(ctx, repo):
             hit = {}     # which bound tests were taken true
             sets = []
             scales = []
-            for e in p.events:
+            pe = PathEnv(fn, p.events)
+            for k_, e in enumerate(p.events):
                 if e.kind == "guard" and isinstance(e.node, ast.Compare) and len(e.node.ops) == 1:
-                    l, r = text(e.node.left), text(e.node.comparators[0])
+                    l, r = text(pe.expand_at(e.node.left, k_)), text(pe.expand_at(e.node.comparators[0], k_))
                     op = type(e.node.ops[0])
+                    val = e.val
+                    if ".vector[" in r and ".vector[" not in l:
+                        l, r = r, l
+                        op = {ast.Gt: ast.Lt, ast.Lt: ast.Gt, ast.GtE: ast.LtE, ast.LtE: ast.GtE}.get(op, op)
+                    if op in (ast.LtE, ast.Lt) and "['bounds'][1]" in r or op in (ast.GtE, ast.Gt) and "['bounds'][0]" in r:
+                        # x <= upper  is  not (x > upper)
+                        op = {ast.LtE: ast.Gt, ast.Lt: ast.GtE, ast.GtE: ast.Lt, ast.Gt: ast.LtE}[op]
+                        val = not val
                     if ".vector[" in l and "['bounds'][1]" in r and op in (ast.Gt, ast.GtE):
-                        hit["upper"] = e.val
+                        hit["upper"] = val
                     elif ".vector[" in l and "['bounds'][0]" in r and op in (ast.Lt, ast.LtE):
-                        hit["lower"] = e.val
+                        hit["lower"] = val
                     elif ".vector[" in l and "['bounds']" in r:
                         bad = bad or (e.node, "bound test %s compares against the wrong bound or in the wrong direction" % text(e.node))
                 elif e.kind == "stmt":
                     s = e.node
-                    if isinstance(s, ast.Assign) and ".vector[" in text(s.targets[0]) and "['bounds']" in text(s.value):
-                        sets.append("upper" if text(s.value).endswith("['bounds'][1]") else "lower")
-                    if isinstance(s, ast.AugAssign) and "features['velocity']" in text(s.target) and isinstance(s.op, ast.Mult):
+                    if isinstance(s, ast.Assign):
+                        tt, vt = text(pe.expand_at(s.targets[0], k_)), text(pe.expand_at(s.value, k_))
+                        if ".vector[" in tt and "['bounds']" in vt:
+                            sets.append("upper" if vt.endswith("['bounds'][1]") else "lower")
+                    if isinstance(s, ast.AugAssign) and "features['velocity']" in text(pe.expand_at(s.target, k_)) and isinstance(s.op, ast.Mult):
                         try:
                             scales.append(fold(s.value))
                         except ValueError:
